@@ -1,8 +1,221 @@
-//! C14 — not implemented yet
-use vcore::{Args, Check};
+//! C14 — the aggregator only publishes certificates clients can verify to genesis.
+//!
+//! Stateful exploration: generated histories of the events the aggregator reacts to, run against the real
+//! aggregator (see sut.rs); after every step every stored certificate is checked against the harness' own model
+//! of the registration history (model.rs) and against fresh verifiers (run.rs, I1..I5).
+
+use proptest::prelude::*;
+use serde::{Deserialize, Serialize};
+use vcore::{Args, Check, Report};
+
+use crate::run::{Flavour, IdxList, Inlet, Label, Op, RegEpoch, Run, RunOpts, SignOp, Source, Target, op_strategy_c14};
+use crate::sut::{SutConfig, case_runtime};
+
+#[derive(Clone, Debug, Serialize, Deserialize)]
+pub struct Case {
+    pub cfg: SutConfig,
+    pub ops: Vec<Op>,
+}
+
+pub fn cfg_strategy() -> impl Strategy<Value = SutConfig> {
+    (
+        prop_oneof![
+            2 => Just((5u64, 100u64, 95u8)),   // the integration tests' parameters: every signer alone reaches the quorum
+            3 => Just((30u64, 100u64, 65u8)),  // about half of the stake is needed
+            1 => Just((12u64, 40u64, 70u8)),
+        ],
+        3u8..=6,
+        any::<bool>(),
+        prop_oneof![3 => Just(false), 1 => Just(true)],
+        prop_oneof![2 => Just(false), 1 => Just(true)],
+    )
+        .prop_map(|((k, m, phi_pct), n_signers, cardano_database, cardano_transactions, cardano_stake_distribution)| SutConfig {
+            k,
+            m,
+            phi_pct,
+            n_signers,
+            cardano_database,
+            cardano_transactions,
+            cardano_stake_distribution,
+        })
+}
+
+fn sign_all(n: u8) -> Op {
+    Op::Sign(SignOp {
+        mask: (1u16 << n) - 1,
+        target: Target::Current(0),
+        flavour: Flavour::Valid,
+        inlet: Inlet::Http,
+        label: Label::Own,
+        source: Source::Own,
+        idx: IdxList::Matching,
+    })
+}
+
+/// A generated history = the start every deployment goes through (genesis epoch, first registrations, first epoch
+/// change; each step individually perturbable) followed by free operations.
+fn case_strategy() -> impl Strategy<Value = Case> {
+    cfg_strategy().prop_flat_map(|cfg| {
+        let n = cfg.n_signers;
+        let full = (1u16 << n) - 1;
+        let prefix = (
+            prop_oneof![4 => Just(Some(Op::Tick(1))), 1 => Just(None)],
+            prop_oneof![
+                5 => Just(Op::Register { mask: full, keygen: 0, when: RegEpoch::Current }),
+                3 => (1u16..=full).prop_map(|mask| Op::Register { mask, keygen: 0, when: RegEpoch::Current }),
+                1 => (1u16..=full).prop_map(|mask| Op::Register { mask, keygen: 1, when: RegEpoch::Current }),
+            ],
+            prop_oneof![6 => Just(Op::EpochUp(1)), 1 => Just(Op::EpochUp(2))],
+            prop_oneof![6 => Just(Op::Tick(3)), 1 => Just(Op::Tick(2))],
+        );
+        (Just(cfg), prefix, prop::collection::vec(op_strategy_c14(n), 6..=31)).prop_map(|(cfg, (a, b, c, d), rest)| {
+            let mut ops: Vec<Op> = a.into_iter().collect();
+            ops.extend([b, c, d]);
+            ops.extend(rest);
+            Case { cfg, ops }
+        })
+    })
+}
+
+/// Honest, scripted histories: validation of the epoch-offset model (any disagreement here is a model bug until
+/// proven otherwise) and a floor for the required classes.
+fn scripted() -> Vec<Case> {
+    let mut v = vec![];
+    for (k, m, phi_pct) in [(5u64, 100u64, 95u8), (30, 100, 65)] {
+        for n in [3u8, 5] {
+            let cfg = SutConfig {
+                k,
+                m,
+                phi_pct,
+                n_signers: n,
+                cardano_database: true,
+                cardano_transactions: n == 5,
+                cardano_stake_distribution: n == 3,
+            };
+            let full = (1u16 << n) - 1;
+            let reg = |mask: u16, keygen: u8| Op::Register { mask, keygen, when: RegEpoch::Current };
+            // three epochs, everybody registers, one certificate per entity, an immutable file in between
+            let mut ops = vec![Op::Tick(1), reg(full, 0), Op::EpochUp(1), Op::Tick(3)];
+            for _epoch in 0..3 {
+                ops.extend([reg(full, 0), sign_all(n), Op::Tick(2), sign_all(n), Op::Tick(2), sign_all(n), Op::Tick(2)]);
+                ops.extend([Op::ImmutableUp, Op::BlocksUp(40), Op::Tick(2), sign_all(n), Op::Tick(2), sign_all(n), Op::Tick(1)]);
+                ops.extend([Op::EpochUp(1), Op::Tick(3)]);
+            }
+            v.push(Case { cfg: cfg.clone(), ops });
+            // partial registration with rotated keys, restart in the middle of a round, late registration
+            let part = full & !1;
+            let mut ops = vec![Op::Tick(1), reg(part, 1), Op::EpochUp(1), Op::Tick(3)];
+            ops.extend([reg(full, 2), sign_all(n), Op::Tick(2), Op::Restart, Op::Tick(3), sign_all(n), Op::Tick(2)]);
+            ops.extend([Op::EpochUp(1), Op::Register { mask: 1, keygen: 1, when: RegEpoch::Stale }, Op::Tick(3)]);
+            ops.extend([reg(part, 0), sign_all(n), Op::Tick(2), sign_all(n), Op::Tick(2)]);
+            ops.extend([Op::EpochUp(1), Op::Tick(3), reg(full, 0), sign_all(n), Op::Tick(2), sign_all(n), Op::Tick(2)]);
+            // skipped epoch, blocked, operator bootstraps a new genesis, chain goes on
+            ops.extend([Op::EpochUp(2), Op::Tick(3), sign_all(n), Op::Tick(2), reg(full, 0), Op::EpochUp(1), Op::Tick(3)]);
+            ops.extend([Op::ReGenesis, Op::Tick(2), reg(full, 0), Op::EpochUp(1), Op::Tick(3), sign_all(n), Op::Tick(2), sign_all(n), Op::Tick(2)]);
+            v.push(Case { cfg, ops });
+        }
+    }
+    v
+}
+
+pub fn run_case(c: &Case) -> Report {
+    let rt = case_runtime();
+    let rep = rt.block_on(async {
+        let mut rep = Report::new();
+        let mut run = Run::boot(&c.cfg, "c14", RunOpts { certificates: true, rows: false, client_verifier: true }).await;
+        for op in &c.ops {
+            if run.violation.is_some() {
+                break;
+            }
+            run.apply(op).await;
+        }
+        let certs = run.non_genesis_certificates();
+        let epochs_with_certs: std::collections::BTreeSet<u64> = run.obs.certs.iter().filter(|c| !c.is_genesis()).map(|c| c.epoch.0).collect();
+        rep.label(format!("certificates:{}", match certs { 0 => "0", 1 => "1", 2..=3 => "2-3", 4..=6 => "4-6", _ => "7+" }));
+        rep.label(format!("epochs-with-certificates:{}", epochs_with_certs.len().min(4)));
+        let labels: Vec<String> = run.labels.iter().cloned().collect();
+        for l in labels {
+            rep.label(l);
+        }
+        for s in run.obs.states.clone() {
+            rep.label(format!("state:{s}"));
+        }
+        if run.obs.restarts > 0 {
+            rep.label("restart");
+        }
+        if run.obs.regenesis > 0 {
+            rep.label("regenesis");
+            if run.obs.certs.iter().rev().take_while(|c| !c.is_genesis()).count() > 0 && run.obs.certs.iter().filter(|c| c.is_genesis()).count() > 1 {
+                rep.label("certificate-after-regenesis");
+            }
+        }
+        if run.obs.multi_epoch_jump {
+            rep.label("multi-epoch-jump");
+        }
+        if run.obs.partial_registration {
+            rep.label("partial-registration");
+        }
+        if run.obs.non_current_signature {
+            rep.label("signature-for-non-current-message");
+        }
+        if run.obs.buffered > 0 {
+            rep.label("buffered-signature");
+        }
+        // partial registration that actually shaped a certificate: some certificate's key set is a strict subset
+        let n = run.model.n();
+        let shaped = run.obs.certs.iter().filter(|c| !c.is_genesis()).any(|c| run.model.members_for_signing_epoch(c.epoch.0).len() < n);
+        if shaped {
+            rep.label("certificate-with-partial-signer-set");
+        }
+        let rotated = run.obs.certs.iter().filter(|c| !c.is_genesis()).any(|c| run.model.members_for_signing_epoch(c.epoch.0).values().any(|g| *g > 0));
+        if rotated {
+            rep.label("certificate-with-rotated-key");
+        }
+        if certs >= 2 {
+            rep.label("certificates>=2");
+        }
+        let interesting = run.obs.restarts > 0 || run.obs.multi_epoch_jump || run.obs.partial_registration || run.obs.non_current_signature;
+        if certs >= 2 && interesting {
+            let shape: Vec<String> = c.ops.iter().map(|o| o.kind()).collect();
+            rep.nontrivial(format!("{}|{}", c.cfg.n_signers, shape.join(" ")));
+        }
+        if let Some((k, w)) = run.violation.clone() {
+            rep.violation(k, w);
+        }
+        run.shutdown().await;
+        rep
+    });
+    rt.shutdown_background();
+    rep
+}
 
 pub fn run(args: &Args) -> i32 {
-    let check = Check::new("C14", "exploration", args);
-    check.inconclusive("check not implemented yet".into());
+    let mut check = Check::new("C14", "exploration", args);
+    check
+        .rule(
+            "history = deployment start (genesis, first registrations, first epoch change; perturbable) + 6..31 generated \
+             operations (tick, epoch+1..3, immutable, blocks, register subset/late/rotated key, sign subset x target \
+             {current, superseded, not yet open, unknown} x {valid, duplicate, wrong message, next/previous epoch key} x \
+             {HTTP route, message-queue processor}, expire, restart, re-genesis) on the real aggregator; non-trivial = >= 2 \
+             certificates produced and at least one of: signature for a non-current open message, restart, multi-epoch \
+             jump, partial registration; distinct by the sequence of operation kinds",
+        )
+        .assume("chain/immutable/block inputs come from the repo's test doubles; signer stakes are constant; protocol parameters are constant over a history")
+        .assume("the artifact task spawned after a certificate always finishes before the next event (its interruption is C15)")
+        .assume("re-genesis is an operator action on a stopped node, computed from the registrations stored for the current epoch, as `genesis bootstrap` does")
+        .require_label("certificates>=2")
+        .require_label("restart")
+        .require_label("multi-epoch-jump")
+        .require_label("partial-registration")
+        .require_label("certificate-with-partial-signer-set")
+        .require_label("signature-for-non-current-message")
+        .require_label("buffered-signature")
+        .require_label("state:blocked-epoch-gap")
+        .require_label("certificate-after-regenesis")
+        .shrink_iters(120);
+    crate::model::warm_up(6);
+    let t = check.tier;
+    check.enumerate("scripted-honest", scripted().into_iter(), false, run_case);
+    check.section("histories", case_strategy, t.pick(176, 6000), run_case);
     check.finish()
 }
